@@ -105,3 +105,10 @@ Require Copia.Proofs.TieReconcile.
 Theorem C07_model_is_translation_of_source : TieReconcile.reconcile_model_is_translation.
 Proof. exact TieReconcile.reconcile_model_is_translation_holds. Qed.
 Print Assumptions C07_model_is_translation_of_source.
+
+(** The trust decision of Archive::load the theorems above are about is the translation of src/bin/copia/archive.rs
+    as it is now (Gen/ArchiveGen.v, generated by tools/gen_logic.py; statement: Proofs/TieArchive.v). *)
+Require Copia.Proofs.TieArchive.
+Theorem C07_archive_load_is_translation_of_source : TieArchive.archive_model_is_translation.
+Proof. exact TieArchive.archive_model_is_translation_holds. Qed.
+Print Assumptions C07_archive_load_is_translation_of_source.
